@@ -45,6 +45,9 @@ type Case struct {
 	// RegisterField call is made (a warm-up whose response is not looked at) - the bindings the
 	// application registers arrive after the root has already been used.
 	LateRegister bool `json:"late_register,omitempty"`
+	// DepthAfter (non-zero): ggql.MaxResolveDepth is set to this once the root exists (an application
+	// that sets up a second root with another limit, say); far above what any generated request needs
+	DepthAfter int `json:"depth_after,omitempty"`
 	// ViaAPI: the schema is given to the root through the Go API (hx.BuildAPI, interfaces without
 	// their Root member) instead of as SDL text
 	ViaAPI bool `json:"via_api,omitempty"`
@@ -177,6 +180,8 @@ func (w *World) ResetCalls() {
 	w.mu.Unlock()
 }
 
+var sentinelExtErr = &ggql.Error{Base: errInjected, Extensions: map[string]interface{}{"code": "E44"}}
+
 func faultErr(f hx.Fault) error {
 	switch f.Kind {
 	case "group":
@@ -209,6 +214,11 @@ func faultErr(f hx.Fault) error {
 		}
 		return e
 	case "ext":
+		if f.Same {
+			// one error value of the application's (a package level sentinel carrying extensions),
+			// returned by every failing resolver
+			return sentinelExtErr
+		}
 		return &ggql.Error{Base: errInjected, Extensions: map[string]interface{}{"code": "E42", "a \"quoted\" key": []interface{}{int64(1), "x"}}}
 	}
 	if f.Msg != "" {
@@ -658,6 +668,9 @@ func NewWorld(c *Case) (*World, error) {
 		if err := w.Root.ParseString(c.Schema.SDL(hx.SDLOpts{})); err != nil {
 			return nil, fmt.Errorf("schema rejected: %w\n%s", err, c.Schema.SDL(hx.SDLOpts{}))
 		}
+	}
+	if c.DepthAfter > 0 {
+		ggql.MaxResolveDepth = c.DepthAfter
 	}
 	if c.ExtraSDL != "" {
 		if err := w.Root.ParseString(c.ExtraSDL); err != nil {
